@@ -85,6 +85,12 @@ Definition noise_summed (d : dimspec) (y : wt) (model : tensor atom) : res (tens
   bind (apply_operation m2 (OT (model_x_model model)) aadd false) (fun tot =>
   sum_dim azero d (OW tot)))).
 
+(** the three dunder calls of [noise_summed] and Sqr("y") written point-wise, as instances of [nll_full]
+    (used to state and prove that padding is invisible to the noise rules) *)
+Definition f_tot : list nat -> atom -> atom -> atom :=
+  fun _ a b => aadd (amul (Fin (-2 # 1)%Q) (amul a b)) (amul b b).
+Definition f_sq : list nat -> atom -> atom -> atom := fun _ a _ => amul a a.
+
 (** noise_var = (y_l2 + summed) / n_obs.float()   (plain tensors) *)
 Definition noise_var_of (p : tensor atom * tensor N) (summed : tensor atom) : res (tensor atom) :=
   bind (tbin aadd (fst p) summed) (fun num => tbin adiv num (tmap ofN (snd p))).
